@@ -350,12 +350,31 @@ def impl_validate(inp):
             s = MazePlacementState(target_agent=next(iter(e["agents"])), **e)
             setattr(s, name, v())
         return both(ctor, setter)
+    def via_sim(agent):
+        # the usual way an agent gets finalized: through its simulation's finalize()
+        from abmarl.sim import AgentBasedSimulation
+
+        class OneAgentSim(AgentBasedSimulation):
+            def __init__(self, ag):
+                self.agents = {ag.id: ag}
+
+            def reset(self, **kw): pass
+            def step(self, action_dict, **kw): pass
+            def render(self, **kw): pass
+            def get_obs(self, agent_id, **kw): return None
+            def get_reward(self, agent_id, **kw): return 0
+            def get_done(self, agent_id, **kw): return False
+            def get_all_done(self, **kw): return False
+            def get_info(self, agent_id, **kw): return {}
+        OneAgentSim(agent).finalize()
     if code == 28:
-        return [run_code(lambda: ActingAgent(id="a", action_space=_space(param),
-                                             null_action=v()).finalize())]
+        return both(lambda: ActingAgent(id="a", action_space=_space(param), null_action=v()).finalize(),
+                    lambda: via_sim(ActingAgent(id="a", action_space=_space(param), null_action=v())))
     if code == 29:
-        return [run_code(lambda: ObservingAgent(id="a", observation_space=_space(param),
-                                                null_observation=v()).finalize())]
+        return both(lambda: ObservingAgent(id="a", observation_space=_space(param),
+                                           null_observation=v()).finalize(),
+                    lambda: via_sim(ObservingAgent(id="a", observation_space=_space(param),
+                                                   null_observation=v())))
     raise ValueError(code)
 
 
